@@ -10,7 +10,7 @@ PROPS_LIR = "RotoV.Props.C01Lir"     # LIR layer: the model of lir/lower.rs (sca
 PROPS_MATCH = "RotoV.Props.C01Match" # match: Spec.evalArms is first-match; the guard chains of mir/lower/match_expr.rs (generated filters) are first-match
 MATCH_EXTRA = ["RotoV.Model.C01MatchLower", "RotoV.Model.Spec"]
 PROPS_CG = "RotoV.Props.C01Cg"       # code-generation layer: the generated control-flow arms of FuncGen::instruction emit code that runs as the LIR does
-CG_EXTRA = ["RotoV.Model.C01CgBase", "RotoV.Model.C01Cg", "RotoV.Lemmas.C01CgSim", "RotoV.Model.C01Lir"]
+CG_EXTRA = ["RotoV.Model.C01CgBase", "RotoV.Model.C01Cg", "RotoV.Lemmas.C01CgSim", "RotoV.Lemmas.C01CgCalls", "RotoV.Model.C01Lir"]
 LIR_EXTRA = ["RotoV.Model.C01Lir", "RotoV.Lemmas.C01LirSim", "RotoV.Model.C01MirRun"]
 LOWER_EXTRA = ["RotoV.Model.C01Resolve", "RotoV.Model.C01MirRun", "RotoV.Lemmas.C01Agree", "RotoV.Lemmas.C01Shape",
                "RotoV.Lemmas.C01MirOps", "RotoV.Lemmas.C01SpecOps", "RotoV.Lemmas.C01MirComplete", "RotoV.Lemmas.C01ScalarCode", "RotoV.Model.TraceSpec", "RotoV.Model.LowerS", "RotoV.Lemmas.LowerS",
